@@ -47,6 +47,7 @@ type Attr struct {
 	Fs   []float64 `json:"floats,omitempty"`
 	Ss   []string  `json:"strings,omitempty"`
 	T    *TJ       `json:"t,omitempty"`
+	Raw  bool      `json:"-"` // tensor attribute: raw_data encoding asked for explicitly
 }
 
 // Result is what the implementation did on a case.
@@ -480,11 +481,24 @@ func mkNode(opType string, attrs []Attr, ins, outs []string) *onnx.NodeProto {
 			}
 		case "t":
 			ap.Type = onnx.AttributeProto_TENSOR
-			ap.T = mkTensorProto("", a.T, false)
+			// attribute tensors alternate between the typed fields and raw_data (what exporters write)
+			attrTensorCounter++
+			ap.T = mkTensorProto("", a.T, (a.Raw || attrTensorCounter%2 == 0) && rawEncodable(a.T))
 		}
 		n.Attribute = append(n.Attribute, ap)
 	}
 	return n
+}
+
+var attrTensorCounter = 0
+
+// rawEncodable: element types rawBytes knows how to lay out
+func rawEncodable(t *TJ) bool {
+	switch t.Dt {
+	case "f32", "f64", "i8", "u8", "bool", "i16", "u16", "i32", "u32", "i64", "u64":
+		return true
+	}
+	return false
 }
 
 var onnxCode = map[string]int32{"f32": 1, "u8": 2, "i8": 3, "u16": 4, "i16": 5, "i32": 6, "i64": 7, "str": 8, "bool": 9, "f16": 10, "f64": 11, "u32": 12, "u64": 13, "c64": 14, "c128": 15, "bf16": 16}
